@@ -443,6 +443,7 @@ def _indent(ctx):
         for c in unknown:
             o.undecided(f, c, c, "cell text comes from a collection the rule cannot trace")
         level = None
+        abs_depth = False
         name_cases = other_cases = 0
         for e, at, node in vals:
             conds = []
@@ -493,9 +494,17 @@ def _indent(ctx):
                             good = False
                     else:
                         pn = [p for p in f.params if mentions(b, p)]
-                        if len(pn) == 1 and isinstance(b, ast.BinOp):
+                        if len(pn) == 1 and isinstance(b, ast.BinOp) and pn[0] != P['task']:
                             level = pn[0]
                             o.refute(f, node, ind[0], f"indentation is multiplied by `{src(b)}` instead of the level `{level}`")
+                        elif pn == [P['task']] and not isinstance(b, ast.Constant):
+                            abs_depth = True
+                            o.refute(f, node, ind[0], f"indentation is multiplied by `{src(b)}`, a value read off the printed task itself (its "
+                                                      f"absolute position in the whole tree), not the depth below the tasks being printed that "
+                                                      f"the recursion counts from 0: a task, subtree or task list printed on its own does not "
+                                                      f"start at the left margin")
+                        elif isinstance(b, ast.Constant):
+                            o.refute(f, node, ind[0], f"indentation is the constant `{src(ind[0])}`: it does not follow the level")
                         else:
                             o.undecided(f, node, ind[0], f"indentation multiplier `{src(b)}` is not the level parameter")
                         good = False
@@ -526,7 +535,8 @@ def _indent(ctx):
         if level is None:
             level = roles.get('level')
         if level is None:
-            o.undecided(f, f.node, 'level', "level parameter not identified")
+            if not abs_depth:
+                o.undecided(f, f.node, 'level', "level parameter not identified")
             return
         # recursion passes level + 1
         for c in facts.calls_named(f, f.name):
@@ -741,7 +751,11 @@ def _width(ctx):
                                     f"not the maximum over all rows")
                 continue
             if args is None:
-                if facts.flatten_lattice(V, 'min') is not None:
+                mins = facts.flatten_lattice(V, 'min')
+                if mins is not None and any(facts.flatten_lattice(a, 'max') is not None for a in mins):
+                    o.refute(f, st, st, f"the running maximum is capped (`{src(V)[:90]}`): cell texts are neither cut nor wrapped, so a "
+                                        f"longer cell overflows its column and that line is wider than the others")
+                elif mins is not None:
                     o.refute(f, st, st, "column width is a running MINIMUM of the cell lengths: longer cells overflow their column")
                 else:
                     o.undecided(f, st, st, f"width update `{src(V)[:100]}` is not a max(..) expression")
@@ -879,7 +893,13 @@ def _width(ctx):
                 o.refute(f, c, wa, f"the widths list is `{src(w)}`: columns are dropped")
                 continue
             else:
-                o.undecided(f, c, wa, f"widths list `{src(w)}` is not the values of `{W}` in index order")
+                we = _widths_elem(w, W)
+                q = _narrowed(we[0], we[1]) if we else None
+                if q:
+                    o.refute(f, c, wa, f"the widths list is `{src(w)[:90]}`: column widths are {q}, but cell texts are neither cut nor "
+                                       f"wrapped - a longer cell overflows its column and that line is wider than the others")
+                else:
+                    o.undecided(f, c, wa, f"widths list `{src(w)}` is not the values of `{W}` in index order")
                 continue
             stn = cfg.node_of(info['store'])
             if cfg.can_reach(cn, stn) or not all(d.node is None or not cfg.can_reach(cn, d.node) for d in fl.defs_of(attr_path(wa) or '')):
@@ -972,6 +992,37 @@ def _width(ctx):
 
 
 
+def _widths_elem(w, W):
+    """w is a comprehension that yields one value per entry of the width map W, in index order:
+    (element expression, expression of the stored width inside it) else None"""
+    if isinstance(w, ast.Call) and isinstance(w.func, ast.Name) and w.func.id in ('list', 'tuple') and len(w.args) == 1:
+        w = w.args[0]
+    if not (isinstance(w, (ast.ListComp, ast.GeneratorExp)) and len(w.generators) == 1 and not w.generators[0].ifs):
+        return None
+    g = w.generators[0]
+    if not isinstance(g.target, ast.Name):
+        return None
+    if match(f"{W}.values()", g.iter) or match(f"list({W}.values())", g.iter):
+        return w.elt, ast.Name(id=g.target.id, ctx=ast.Load())
+    if any(match(p, g.iter) for p in (f"range(len({W}))", f"range(0, len({W}))", f"sorted({W})", f"sorted({W}.keys())")):
+        return w.elt, ast.Subscript(value=ast.Name(id=W, ctx=ast.Load()), slice=ast.Name(id=g.target.id, ctx=ast.Load()), ctx=ast.Load())
+    inner = _widths_elem(g.iter, W)
+    if inner is not None:
+        return subst(w.elt, {g.target.id: inner[0]}), inner[1]
+    return None
+
+
+def _narrowed(elt, val):
+    """text when the element makes the width smaller than the stored maximum `val` (min(val, cap), val - k), else None"""
+    args = facts.flatten_lattice(elt, 'min')
+    if args is not None and any(same(a, val) for a in args):
+        caps = [a for a in args if not same(a, val)]
+        return "capped at `" + ', '.join(src(a) for a in caps) + "`"
+    if isinstance(elt, ast.BinOp) and isinstance(elt.op, ast.Sub) and same(elt.left, val) and facts.const_num(elt.right):
+        return f"reduced by {src(elt.right)}"
+    return None
+
+
 def _row_render(ctx):
     prog = ctx.prog
     o = ctx.ob('width_row_emits_every_column', 'R13',
@@ -1009,27 +1060,29 @@ def _row_render(ctx):
                 return 'rawcell'
             return 'border' if const_str(xv) is not None else 'other'
 
-        def leaves(xv, certain=True):
-            """an emitted (expanded) expression as the list of texts it contributes: [(kind, expr, certain)]"""
+        def leaves(xv):
+            """an emitted (expanded) expression as the alternatives of what it contributes: [[(kind, expr)], ..] - one list
+            of texts per way the conditional expressions inside it can evaluate"""
             if isinstance(xv, ast.IfExp):
                 t = truth(xv.test, state['assume'])
                 if t is True:
-                    return leaves(xv.body, certain)
+                    return leaves(xv.body)
                 if t is False:
-                    return leaves(xv.orelse, certain)
-                return leaves(xv.body, False) + leaves(xv.orelse, False)
+                    return leaves(xv.orelse)
+                return leaves(xv.body) + leaves(xv.orelse)
             if const_str(xv) == '':
-                return []
+                return [[]]
             ps = parts_of(xv)
             if len(ps) > 1 and not any(isinstance(q, ast.FormattedValue) for q in ps):
-                out = []
+                out = [[]]
                 for q in ps:
-                    out += leaves(q, certain)
+                    out = [a + b for a in out for b in leaves(q)][:64]
                 return out
-            return [(leaf_kind(xv), xv, certain)]
+            return [[(leaf_kind(xv), xv)]]
 
         def kinds(node):
-            """every text the statement appends: [(kind, original expr, cfg node, expanded expr, certain, slot no, alternative no)]"""
+            """every text the statement appends: [(kind, original expr, cfg node, expanded expr, certain, slot no, alternative no)]
+            (kind None: the alternative appends nothing)"""
             e = acc.emitted(node)
             if e is None:
                 return None
@@ -1037,12 +1090,17 @@ def _row_render(ctx):
             sub = _enumerate_subst(cfg.enclosing_fors(at), ex, cfg) if at is not None else {}
             out = []
             for si, part in enumerate(parts_of(e) or [e]):
-                for ai, (v, vat) in enumerate(value_set(f, part, at)):
+                ai = 0
+                for v, vat in value_set(f, part, at):
                     xv = ex.expand(v, vat)
                     if sub:
                         xv = subst(xv, sub)
-                    for kind, leaf, certain in leaves(xv):
-                        out.append((kind, v, vat, leaf, certain, si, ai))
+                    for alt in leaves(xv):
+                        for kind, leaf in alt:
+                            out.append((kind, v, vat, leaf, True, si, ai))
+                        if not alt:
+                            out.append((None, v, vat, xv, True, si, ai))
+                        ai += 1
             return out
 
         def classify(node, g):
@@ -1143,7 +1201,7 @@ def _row_render(ctx):
         wds = []
         for n in cell_nodes:
             for kind, v, vat, xv, _c, _s, _a in kinds(n):
-                if kind in ('border', 'other'):
+                if kind in ('border', 'other', None):
                     continue
                 if kind == 'rawcell':
                     o2.refute(f, n, v, f"cell text `{src(xv)[:80]}` is appended without colored_text(): it is not padded to the column width")
@@ -1647,44 +1705,56 @@ def _usage(ctx):
                 "the usage table has one header row (title + one cell per resource) and per day one date cell plus one cell per "
                 "resource showing reserved(resource, day), for the same set of resources", floor=5)
 
-    def dates_of_all_rows(e, rows):
-        """e is `[x.date for x in rows]` (list / generator / set of the dates of every stored row)"""
-        if isinstance(e, ast.Call) and isinstance(e.func, ast.Name) and e.func.id in ('list', 'set', 'sorted', 'tuple') and len(e.args) == 1:
-            e = e.args[0]
-        parts = facts.comp_parts(e)
-        if not parts:
+    def peel(e):
+        """strip wrappers that only reorder / dedupe / copy a collection"""
+        while True:
+            if isinstance(e, ast.Call) and isinstance(e.func, ast.Name) and len(e.args) >= 1 \
+                    and e.func.id in ('list', 'set', 'sorted', 'tuple', 'reversed', 'frozenset', 'iter'):
+                e = e.args[0]
+            elif isinstance(e, ast.Call) and isinstance(e.func, ast.Attribute) and e.func.attr == 'keys' and not e.args:
+                e = e.func.value
+            else:
+                return e
+
+    def labels_of_all_rows(e, rows):
+        """a comprehension over every stored row whose element (key of a dict comprehension) is derived from the row's date:
+        ('date' | 'text' | 'other', element, value of a dict comprehension | None, filtered) else None"""
+        e = peel(e)
+        if isinstance(e, ast.DictComp) and len(e.generators) == 1:
+            g = e.generators[0]
+            elt, val, tgt, it, ifs = e.key, e.value, g.target, g.iter, g.ifs
+        else:
+            parts = facts.comp_parts(e)
+            if not parts:
+                return None
+            elt, tgt, it, ifs = parts
+            val = None
+        if not (isinstance(tgt, ast.Name) and match(rows, it)):
             return None
-        elt, tgt, it, ifs = parts
-        if isinstance(tgt, ast.Name) and match(f"{tgt.id}.date", elt) and match(rows, it):
-            return 'filtered' if ifs else 'ok'
+        dt = f"{tgt.id}.date"
+        if match(dt, elt):
+            kind = 'date'
+        elif not any(match(dt, x) for x in ast.walk(elt)):
+            return None
+        elif isinstance(elt, ast.JoinedStr) or (isinstance(elt, ast.Call) and (
+                (isinstance(elt.func, ast.Attribute) and elt.func.attr in ('strftime', 'isoformat', 'format', '__format__', '__str__', 'ctime'))
+                or (isinstance(elt.func, ast.Name) and elt.func.id in ('str', 'format', 'repr')))):
+            kind = 'text'
+        else:
+            kind = 'other'
+        return kind, elt, val, bool(ifs)
+
+    def day_offset(e, i):
+        """F for `F + timedelta(days=i)` (and spellings), else None"""
+        for p in ("$F + timedelta(days=$i)", "$F + timedelta($i)", "timedelta(days=$i) + $F", "timedelta($i) + $F",
+                  "$F + $i * timedelta(days=1)", "$F + timedelta(days=1) * $i", "$F + $i * timedelta(1)", "$F + timedelta(1) * $i"):
+            m = match(p, e)
+            if m and isinstance(m['i'], ast.Name) and m['i'].id == i:
+                return m['F']
         return None
 
-    def run(_):
-        f = prog.func(USAGE)
-        sn = f.self_name
-        rows = f"{sn}._ResourceUsageReport__rows"
-        cfg, fl = cfg_of(f), flow_of(f)
-        ex = Expander(prog, f, ctx.typer)
-        tables = _table_names(ctx, f)
-        row_calls = [c for c in facts.calls_named(f, 'new_row') if isinstance(c.func.value, ast.Name) and c.func.value.id in tables]
-        whiles = [w for w in walk_no_nested(f.node) if isinstance(w, ast.While)
-                  and any(x is c for c in row_calls for st in w.body for x in ast.walk(st))]
-        if not whiles:
-            hit = False
-            for c in row_calls:
-                for fo in cfg.enclosing_fors(cfg.node_containing(c)):
-                    it = ex.expand(fo.iter, cfg.node_of(fo))
-                    if any(isinstance(x, ast.Attribute) and x.attr == 'date' for x in ast.walk(it)) and \
-                            any(match(rows, x) for x in ast.walk(it)):
-                        o.refute(f, fo, fo.iter, f"table rows are produced by iterating `{src(it)[:90]}` - the dates that have reservations; "
-                                                 f"days between the first and the last reservation without a reservation get no line")
-                        hit = True
-            if not hit:
-                o.undecided(f, f.node, '__repr__', "no `while day <= last day` loop producing the table rows")
-            o2.undecided(f, f.node, '__repr__', "cells per day not compared: the day loop was not recognised")
-            return
-        w = whiles[0]
-        wn = cfg.node_of(w)
+    def while_loop(ob, g, w):
+        """`while d <op> bound` with its step statements, inside function g: dict or None (verdict recorded)"""
         steps = []
         for n in walk_no_nested(w):
             if isinstance(n, ast.AugAssign) and isinstance(n.target, ast.Name):
@@ -1697,80 +1767,147 @@ def _usage(ctx):
                     steps.append((n, d0, ast.Add() if m else ast.Sub(), (m or m2)['x']))
         steps = [s_ for s_ in steps if mentions(w.test, s_[1])]
         if not steps:
-            o.refute(f, w, w.test, "the day variable of the loop is never advanced")
-            return
+            ob.refute(g, w, w.test, "the day variable of the loop is never advanced")
+            return None
         d = steps[0][1]
         c3 = cmp_oriented(w.test, True, lambda x: isinstance(x, ast.Name) and x.id == d)
         if c3 is None:
-            o.undecided(f, w, w.test, f"loop test `{src(w.test)}` is not a comparison of the day with the last day")
-            return
+            ob.undecided(g, w, w.test, f"loop test `{src(w.test)}` is not a comparison of the day with the last day")
+            return None
         _, op, bound = c3
         if op == '<=':
-            o.site(f, w, f"while {d} <= {src(bound)}")
+            ob.site(g, w, f"while {d} <= {src(bound)}")
         elif op == '<':
-            o.refute(f, w, w.test, f"loop test `{src(w.test)}` excludes the last day: the day of the last reservation gets no line")
+            ob.refute(g, w, w.test, f"loop test `{src(w.test)}` excludes the last day: the day of the last reservation gets no line")
         elif op in ('>', '>=', '=='):
-            o.refute(f, w, w.test, f"loop test `{src(w.test)}` does not run from the first to the last day")
+            ob.refute(g, w, w.test, f"loop test `{src(w.test)}` does not run from the first to the last day")
         else:
-            o.undecided(f, w, w.test, f"loop test `{src(w.test)}` not understood")
-        # bounds
-        for what, e, at, fn, other in (('last day', bound, wn, 'max', 'min'), ('first day', None, wn, 'min', 'max')):
-            if e is None:
-                ds = [x for x in fl.reaching(d, wn) if not any(x.stmt is s_[0] for s_ in steps)]
-                if len(ds) != 1 or ds[0].kind != 'assign':
-                    o.undecided(f, w, d, f"initial value of `{d}` not unique")
-                    continue
-                v = xexpand(ex, ds[0].value, ds[0].node)
-                node = ds[0].stmt
-            else:
-                v = xexpand(ex, e, at)
-                node = w
-            m = match(f"{fn}($x)", v)
-            mo = match(f"{other}($x)", v)
-            single = [x for x in ast.walk(v) if isinstance(x, ast.Subscript) and match(rows, x.value)
-                      and not (isinstance(x.slice, ast.Slice) and x.slice.lower is None and x.slice.upper is None)]
-            if single:
-                o.refute(f, node, v, f"the {what} is taken from individual rows (`{src(v)[:80]}`), not {fn}() over the dates of ALL stored "
-                                     f"rows: reservations recorded out of date order fall outside the table")
-            elif m and dates_of_all_rows(m['x'], rows) == 'ok':
-                o.site(f, node, f"{what} = {src(v)[:80]}")
-            elif (m or mo) and dates_of_all_rows((m or mo)['x'], rows):
-                if mo:
-                    o.refute(f, node, v, f"the {what} of the table is `{src(v)[:80]}`, expected {fn}(..) of the reservation dates")
-                else:
-                    o.refute(f, node, v, f"the {what} is computed from a filtered set of reservations: `{src(v)[:80]}`")
-            else:
-                o.undecided(f, node, v, f"{what} `{src(v)[:80]}` is not {fn}() over the dates of all stored rows")
-        # step
-        watom = 'while:' + src(w.test)
-        step_nodes = [s_[0] for s_ in steps if s_[1] == d]
+            ob.undecided(g, w, w.test, f"loop test `{src(w.test)}` not understood")
+        steps = [s_ for s_ in steps if s_[1] == d]
+        gfl, gcfg = flow_of(g), cfg_of(g)
+        wn = gcfg.node_of(w)
+        ds = [x for x in gfl.reaching(d, wn) if not any(x.stmt is s_[0] for s_ in steps)]
+        init = ds[0] if len(ds) == 1 and ds[0].kind == 'assign' else None
+        if init is None:
+            ob.undecided(g, w, d, f"initial value of `{d}` not unique")
+        return {'d': d, 'bound': bound, 'steps': steps, 'init': init, 'wn': wn}
 
+    def step_sizes(ob, g, steps, d):
+        gex, gcfg = Expander(prog, g, ctx.typer), cfg_of(g)
+        for st, _d, sop, val in steps:
+            dd = facts.day_delta(gex.expand(val, gcfg.node_of(st)))
+            if not isinstance(sop, ast.Add):
+                ob.refute(g, st, st, "the day is moved backwards: the loop never reaches the last day")
+            elif dd is None:
+                ob.undecided(g, st, st, f"step `{src(val)}` is not a constant timedelta")
+            elif dd != 1:
+                ob.refute(g, st, st, f"the day is advanced by {dd:g} days per line: days in between get no line")
+            else:
+                ob.site(g, st, f"{d} += 1 day")
+
+    def check_bound(ob, f, rows, what, v, node, fn, other):
+        m = match(f"{fn}($x)", v)
+        mo = match(f"{other}($x)", v)
+        single = [x for x in ast.walk(v) if isinstance(x, ast.Subscript) and match(rows, x.value)
+                  and not (isinstance(x.slice, ast.Slice) and x.slice.lower is None and x.slice.upper is None)]
+        lab = labels_of_all_rows((m or mo)['x'], rows) if (m or mo) else None
+        # `D[min(D)]` with D = {label(x.date): x.date for x in rows}: the extreme is taken over the keys
+        md = match(f"$D[{fn}($K)]", v) or match(f"$D[{other}($K)]", v)
+        if md and same(peel(md['K']), md['D']):
+            dl = labels_of_all_rows(md['D'], rows)
+            if dl and dl[0] == 'text':
+                ob.refute(f, node, v, f"the {what} is the date whose label `{src(dl[1])}` is the {'smallest' if match(f'$D[min($K)]', v) else 'largest'} "
+                                      f"TEXT (`{src(v)[:70]}`), not {fn}() over the dates themselves: labels do not sort like dates, and equal "
+                                      f"labels keep an arbitrary time of that day")
+                return
+            if dl and dl[0] == 'date' and dl[2] is not None and match(src(dl[1]), dl[2]) and not dl[3] and match(f"$D[{fn}($K)]", v):
+                ob.site(f, node, f"{what} = {src(v)[:80]}")
+                return
+        if single:
+            ob.refute(f, node, v, f"the {what} is taken from individual rows (`{src(v)[:80]}`), not {fn}() over the dates of ALL stored "
+                                  f"rows: reservations recorded out of date order fall outside the table")
+        elif m and lab and lab[0] == 'date' and not lab[3]:
+            ob.site(f, node, f"{what} = {src(v)[:80]}")
+        elif lab and lab[0] == 'date':
+            if mo:
+                ob.refute(f, node, v, f"the {what} of the table is `{src(v)[:80]}`, expected {fn}(..) of the reservation dates")
+            else:
+                ob.refute(f, node, v, f"the {what} is computed from a filtered set of reservations: `{src(v)[:80]}`")
+        else:
+            ob.undecided(f, node, v, f"{what} `{src(v)[:80]}` is not {fn}() over the dates of all stored rows")
+
+    def run(_):
+        f = prog.func(USAGE)
+        sn = f.self_name
+        rows = f"{sn}._ResourceUsageReport__rows"
+        cfg, fl = cfg_of(f), flow_of(f)
+        ex = Expander(prog, f, ctx.typer)
+        tables = _table_names(ctx, f)
+        row_calls = [c for c in facts.calls_named(f, 'new_row') if isinstance(c.func.value, ast.Name) and c.func.value.id in tables]
+        inside = lambda lp, c: any(x is c for st in lp.body for x in ast.walk(st))
+        whiles = [w for w in walk_no_nested(f.node) if isinstance(w, ast.While) and any(inside(w, c) for c in row_calls)]
+        step_nodes = []
+        bounds = []          # (what, expanded value, report node, fn, other)
+        if whiles:
+            w = whiles[0]
+            info = while_loop(o, f, w)
+            if info is None:
+                return
+            d, wn, dref = info['d'], info['wn'], info['wn']
+            bounds.append(('last day', xexpand(ex, info['bound'], wn), w, 'max', 'min'))
+            if info['init'] is not None:
+                bounds.append(('first day', xexpand(ex, info['init'].value, info['init'].node), info['init'].stmt, 'min', 'max'))
+            step_nodes = [s_[0] for s_ in info['steps']]
+        else:
+            fors = []
+            for c in row_calls:
+                efs = cfg.enclosing_fors(cfg.node_containing(c))
+                if efs and not any(efs[0] is x for x in fors):
+                    fors.append(efs[0])
+            if len(fors) != 1:
+                o.undecided(f, f.node, '__repr__', "no `while day <= last day` loop producing the table rows")
+                o2.undecided(f, f.node, '__repr__', "cells per day not compared: the day loop was not recognised")
+                return
+            w = fors[0]
+            wn = dref = cfg.node_of(w)
+            it = ex.expand(w.iter, wn)
+            lab = labels_of_all_rows(it, rows)
+            got = None
+            if lab:
+                o.refute(f, w, w.iter, f"table rows are produced by iterating `{src(it)[:90]}` - the dates that have reservations; "
+                                       f"days between the first and the last reservation without a reservation get no line")
+                got = 'refuted'
+            else:
+                got = _for_day_loop(ctx, o, f, w, it, ex, cfg, bounds, while_loop, step_sizes, day_offset)
+            if not isinstance(got, dict):
+                if got is None:
+                    o.undecided(f, w, w.iter, f"the loop producing the table rows iterates `{src(it)[:80]}`: not a recognised way of "
+                                              f"visiting every day from the first to the last reservation")
+                o2.undecided(f, f.node, '__repr__', "cells per day not compared: the day loop was not recognised")
+                return
+            d, dref = got['d'], got['dref']
+        for what, v, node, fn, other in bounds:
+            check_bound(o, f, rows, what, v, node, fn, other)
+        # step / rows per iteration
         def classify(node, g):
             return 'step' if any(node is s_ for s_ in step_nodes) else None
         c = Counter(ctx, classify=classify)
+        watom = c.loop_atom(f, w)
         main = None
         for r, em in c.exits(f, tables, {}):
             if r is not None and r.value is not None and _renders_table(r.value, tables):
                 main = em if main is None else None
-                main_ret = r
         if main is None:
             o.undecided(f, f.node, 'return', "__repr__ does not have exactly one `return table.text_repr(..)` exit")
             return
         if '!irregular' in main:
             o.undecided(f, f.node, 'loops', "a loop is left by break/return: " + '; '.join(c.notes))
             return
-        _verdict(o, f, w, 'day step per iteration', "the day is advanced", main.get('step', {}), {(watom,): (1, 1)})
-        for st, _d, sop, val in [s_ for s_ in steps if s_[1] == d]:
-            dd = facts.day_delta(ex.expand(val, cfg.node_of(st)))
-            if not isinstance(sop, ast.Add):
-                o.refute(f, st, st, "the day is moved backwards: the loop never reaches the last day")
-            elif dd is None:
-                o.undecided(f, st, st, f"step `{src(val)}` is not a constant timedelta")
-            elif dd != 1:
-                o.refute(f, st, st, f"the day is advanced by {dd:g} days per line: days in between get no line")
-            else:
-                o.site(f, st, f"{d} += 1 day")
-        _verdict(o, f, w, 'new_row per day', "table.new_row", main.get('new_row', {}), {(): (1, 1), (watom,): (1, 1)})
+        if step_nodes:
+            _verdict(o, f, w, 'day step per iteration', "the day is advanced", main.get('step', {}), {(watom,): (1, 1)})
+            step_sizes(o, f, info['steps'], d)
+        want_rows = {(): (1, 1), (watom,): (1, 1)}
+        _verdict(o, f, w, 'new_row per day', "table.new_row", main.get('new_row', {}), want_rows)
 
         # ---- cells
         cell_calls = [x for x in facts.calls_named(f, 'new_cell') if isinstance(x.func.value, ast.Name) and x.func.value.id in tables]
@@ -1779,7 +1916,7 @@ def _usage(ctx):
         for x in cell_calls:
             if in_w(x):
                 for fo in cfg.enclosing_fors(cfg.node_containing(x)):
-                    if in_w(fo) and not any(fo is y for y in inner):
+                    if fo is not w and in_w(fo) and not any(fo is y for y in inner):
                         inner.append(fo)
         if len(inner) != 1:
             o2.undecided(f, w, 'resource loop', "the day loop does not contain exactly one loop emitting the resource cells")
@@ -1815,7 +1952,7 @@ def _usage(ctx):
             b = bind_args(x, prog.func('schedule.ResourceUsageReport.reserved'), drop_self=True)
             vals = list(b.values()) if b else []
             if len(vals) == 2 and isinstance(vals[0], ast.Name) and vals[0].id == kvar and isinstance(vals[1], ast.Name) and vals[1].id == d \
-                    and fl.same_version(d, wn, cfg.node_containing(x)):
+                    and fl.same_version(d, dref, cfg.node_containing(x)):
                 o2.site(f, x, src(x))
             else:
                 o2.refute(f, x, x, f"resource cell shows `{src(x)}`, expected reserved({kvar}, {d}) for the day of this line")
@@ -1823,13 +1960,151 @@ def _usage(ctx):
             xn = cfg.node_containing(x)
             if in_w(x) and not any(fo is rl for fo in cfg.enclosing_fors(xn)):
                 a0 = x.args[0] if x.args else None
-                if a0 is not None and mentions(ex.expand(a0, xn, stop={d}), d) and fl.same_version(d, wn, xn):
+                if a0 is not None and mentions(ex.expand(a0, xn, stop={d}), d) and fl.same_version(d, dref, xn):
                     o2.site(f, x, f"date cell {src(a0)}")
                 elif a0 is not None and mentions(ex.expand(a0, xn, stop={d}), d):
                     o2.refute(f, x, x, f"the date cell is written after `{d}` was advanced: every line shows the following day")
                 else:
                     o2.refute(f, x, x, f"the first cell of a day line `{src(a0) if a0 is not None else ''}` does not show the day `{d}`")
     ctx.guarded(o, run)
+
+
+def _for_day_loop(ctx, o, f, w, it, ex, cfg, bounds, while_loop, step_sizes, day_offset):
+    """`for d in <generator of days>(first, last)` / `for i in range((last - first).days + 1): d = first + i days` /
+    `for d in [first + i days for i in range(..)]`: {'d', 'dref'} when understood (first/last appended to `bounds`),
+    'refuted' when a verdict was recorded, None when the loop is of no known form"""
+    prog = ctx.prog
+    wn = cfg.node_of(w)
+
+    def count_range(n_expr, first):
+        """n_expr must be (last - first).days + 1 -> last"""
+        m = match("($L - $F).days + 1", n_expr) or match("1 + ($L - $F).days", n_expr)
+        if m and same(m['F'], first):
+            o.site(f, w, f"{src(n_expr)[:80]} days")
+            return m['L']
+        m0 = match("($L - $F).days", n_expr)
+        if m0 and same(m0['F'], first):
+            o.refute(f, w, n_expr, f"the loop runs `{src(n_expr)[:80]}` times: the day of the last reservation gets no line "
+                                   f"(expected `.days + 1`)")
+            return 'refuted'
+        o.undecided(f, w, n_expr, f"number of day lines `{src(n_expr)[:80]}` is not `(last - first).days + 1`")
+        return 'refuted'
+
+    def range_from_zero(r, where):
+        a, b, step = r
+        if step is not None and not (isinstance(step, ast.Constant) and step.value == 1):
+            o.refute(f, w, where, f"day index loop `{src(where)[:80]}` steps by {src(step)}: days in between get no line")
+            return False
+        if not is_zero(a):
+            if isinstance(a, ast.Constant):
+                o.refute(f, w, where, f"day index loop `{src(where)[:80]}` starts at {a.value!r}: the first day gets no line")
+            else:
+                o.undecided(f, w, where, f"day index loop `{src(where)[:80]}` does not start at 0")
+            return False
+        o.site(f, w, "day index counts from 0 by 1")
+        return True
+
+    # --- (B) generator function of the package
+    if isinstance(w.iter, ast.Call) and isinstance(w.target, ast.Name):
+        g = Counter(ctx).target_of(w.iter, f)
+        if g is not None and any(isinstance(n, (ast.Yield, ast.YieldFrom)) for n in walk_no_nested(g.node)):
+            b = bind_args(w.iter, g, drop_self=g.kind == 'method')
+            gw = [n for n in g.body if isinstance(n, ast.While)]
+            ys = [n for n in walk_no_nested(g.node) if isinstance(n, (ast.Yield, ast.YieldFrom))]
+            if b is None or len(gw) != 1 or len(ys) != 1 or isinstance(ys[0], ast.YieldFrom):
+                o.undecided(f, w, w.iter, f"day generator {g.qual} is not one `while day <= last: yield day; day += step` loop")
+                return 'refuted'
+            gw = gw[0]
+            if any(isinstance(n, (ast.Break, ast.Continue, ast.Return, ast.Try)) for n in walk_no_nested(g.node)):
+                o.undecided(g, gw, gw, f"day generator {g.qual} leaves its loop by break / continue / return")
+                return 'refuted'
+            info = while_loop(o, g, gw)
+            if info is None:
+                return 'refuted'
+            gd = info['d']
+            top = {id(s): k for k, s in enumerate(gw.body)}
+            ystmt = next((s for s in gw.body if isinstance(s, ast.Expr) and s.value is ys[0]), None)
+            steps_top = [s_ for s_ in info['steps'] if id(s_[0]) in top]
+            if ystmt is None or len(steps_top) != 1 or len(info['steps']) != 1:
+                o.undecided(g, gw, gw, "the day is not yielded and advanced exactly once, unconditionally, per iteration")
+                return 'refuted'
+            if not (isinstance(ys[0].value, ast.Name) and ys[0].value.id == gd):
+                o.undecided(g, ystmt, ystmt, f"the generator yields `{src(ys[0].value) if ys[0].value is not None else None}`, not the day `{gd}`")
+                return 'refuted'
+            if top[id(ystmt)] > top[id(steps_top[0][0])]:
+                o.refute(g, ystmt, 'yield after step', f"`{gd}` is advanced before it is yielded: the first day gets no line and the day after "
+                                                       f"the last reservation gets one")
+                return 'refuted'
+            o.site(g, ystmt, f"yield {gd} once per iteration, before the step")
+            step_sizes(o, g, info['steps'], gd)
+            gex = Expander(prog, g, ctx.typer)
+            pl = gex.expand(info['bound'], info['wn'])
+            pf = gex.expand(info['init'].value, info['init'].node) if info['init'] is not None else None
+            ok = True
+            for what, p, fn, other in (('last day', pl, 'max', 'min'), ('first day', pf, 'min', 'max')):
+                if isinstance(p, ast.Name) and p.id in b and all(x.kind == 'param' for x in flow_of(g).defs_of(p.id)):
+                    bounds.append((what, xexpand(ex, b[p.id], wn), w, fn, other))
+                else:
+                    o.undecided(g, gw, what, f"the {what} of generator {g.qual} is `{src(p) if p is not None else '?'}`, not one of its parameters")
+                    ok = False
+            if not ok:
+                return 'refuted'
+            return {'d': w.target.id, 'dref': wn}
+    # --- (C) index loop: for i in range(N): d = first + timedelta(days=i)
+    r = range_over(it)
+    if r is not None and isinstance(w.target, ast.Name):
+        i = w.target.id
+        cands = []
+        for s in w.body:
+            if isinstance(s, ast.Assign) and len(s.targets) == 1 and isinstance(s.targets[0], ast.Name):
+                F = day_offset(s.value, i)
+                if F is not None:
+                    cands.append((s, F))
+        if len(cands) != 1:
+            return None
+        s, F = cands[0]
+        d = s.targets[0].id
+        sn_ = cfg.node_of(s)
+        if len([x for x in flow_of(f).defs_of(d) if x.node is not None and any(x.stmt is y for st in w.body for y in ast.walk(st))]) != 1:
+            o.undecided(f, s, s, f"`{d}` is assigned more than once inside the day loop")
+            return 'refuted'
+        if cfg.conditions(sn_) and any(t is not None for t, _p in cfg.conditions(sn_) if any(t is x for st in w.body for x in ast.walk(st))):
+            o.undecided(f, s, s, f"`{d}` is computed under a condition")
+            return 'refuted'
+        Fx = xexpand(ex, F, sn_)
+        if not range_from_zero(r, w.iter):
+            return 'refuted'
+        L = count_range(r[1], Fx)
+        if L == 'refuted':
+            return 'refuted'
+        o.site(f, s, f"{d} = {src(s.value)}")
+        bounds.append(('last day', L, w, 'max', 'min'))
+        bounds.append(('first day', Fx, s, 'min', 'max'))
+        return {'d': d, 'dref': sn_}
+    # --- (C') for d in [first + timedelta(days=i) for i in range(N)]
+    comp = it
+    if isinstance(comp, ast.Call) and isinstance(comp.func, ast.Name) and comp.func.id in ('list', 'tuple', 'iter') and len(comp.args) == 1:
+        comp = comp.args[0]
+    parts = facts.comp_parts(comp) if isinstance(comp, (ast.ListComp, ast.GeneratorExp)) else None
+    if parts and isinstance(parts[1], ast.Name) and isinstance(w.target, ast.Name):
+        elt, tgt, cit, ifs = parts
+        r = range_over(cit)
+        F = day_offset(elt, tgt.id)
+        if r is None or F is None:
+            return None
+        if ifs:
+            o.refute(f, w, w.iter, f"the days of the table are filtered (`{src(it)[:80]}`): some days get no line")
+            return 'refuted'
+        if not range_from_zero(r, cit):
+            return 'refuted'
+        L = count_range(r[1], F)
+        if L == 'refuted':
+            return 'refuted'
+        o.site(f, w, f"days = {src(elt)} for {tgt.id} in {src(cit)[:60]}")
+        bounds.append(('last day', L, w, 'max', 'min'))
+        bounds.append(('first day', F, w, 'min', 'max'))
+        return {'d': w.target.id, 'dref': wn}
+    return None
 
 
 # ======================================================================================================== field texts
@@ -1919,9 +2194,101 @@ def _field_texts(ctx):
                         if (match(f"{fld} not in {t}.__dict__", a) and ap) or (match(f"{fld} in {t}.__dict__", a) and not ap) or \
                                 (match(f"hasattr({t}, {fld})", a) and not ap):
                             guard = r
-        if raw and guard is None:
+        if raw and guard is not None:
+            o.site(f, guard, "unknown field -> ''")
+            return
+        if not raw:
+            return
+        # the looked-up name is a resolved local (`attribute = field if field in t.__dict__ else ... else None`):
+        # every alternative of the name is either known to be an attribute, or None and answered before the read
+        ex = Expander(prog, f, ctx.typer)
+        all_ok = True
+        for c in raw:
+            cn = cfg.node_containing(c)
+            a = c.args[0] if isinstance(c.func, ast.Attribute) else c.args[1]
+            why = _lookup_guarded(ex, cfg, f, t, a, cn)
+            if why is None:
+                all_ok = False
+            else:
+                o.site(f, c, f"unknown field -> '': {why}")
+        if all_ok:
+            return
+        # closed world: nothing in the function asks whether the task has the attribute
+        asks = False
+        for n in walk_no_nested(f.node):
+            if isinstance(n, ast.Try):
+                asks = True
+            elif isinstance(n, ast.Compare) and any(isinstance(op, (ast.In, ast.NotIn)) for op in n.ops):
+                # `field [not] in t.__dict__` on the parameter itself is the understood form (it guards no `return ''` here)
+                if not (match(f"{fld} in {t}.__dict__", n) or match(f"{fld} not in {t}.__dict__", n)):
+                    asks = True
+            elif isinstance(n, ast.Call) and isinstance(n.func, ast.Name) and n.func.id in ('hasattr', 'dir', 'vars') \
+                    or (isinstance(n, ast.Call) and isinstance(n.func, ast.Name) and n.func.id == 'getattr' and len(n.args) == 3):
+                asks = True
+            elif isinstance(n, ast.Call) and ctx_target(ctx, f, n) is not None:
+                asks = True          # a package helper may do the asking
+        if asks:
+            o.undecided(f, raw[0], 'unknown field', f"the attribute named by `{src(raw[0])[:60]}` is read; the rule cannot see that names the "
+                                                    f"task does not have are answered with '' before")
+        else:
             o.refute(f, raw[0], 'unknown field', f"the attribute named by `{fld}` is read without a `return ''` for names the task does not "
                                                  f"have: an unknown field raises AttributeError instead of printing an empty column")
-        elif raw:
-            o.site(f, guard, "unknown field -> ''")
     ctx.guarded(o, run)
+
+
+def ctx_target(ctx, f, call):
+    """the package function a call resolves to (None for builtins / methods of foreign objects)"""
+    for ci in ctx.cg.calls_in(f):
+        if ci.node is call and ci.kind == 'call':
+            tg = [x for x in ci.targets if x is not None]
+            if ci.resolved and len(tg) == 1 and tg[0].qual not in (LINK_ONE, LINK_MANY):
+                return tg[0]
+    return None
+
+
+def _lookup_guarded(ex, cfg, f, t, name_expr, cn):
+    """text saying why `t.__getattribute__(name_expr)` at cfg node cn only sees names the task has, else None:
+    every alternative of the (expanded) name is under `<alt> in t.__dict__` / `hasattr(t, <alt>)`, or is None while the
+    read is only reached under `name is not None` (the None branch returns a text)"""
+    path = []
+    for tt, p in cfg.conditions(cn):
+        path += facts.split_conj(tt, p)
+    path_x = []
+    for tt, p in cfg.conditions(cn):
+        path_x += facts.split_conj(ex.expand(tt, cfg.node_containing(tt)), p)
+    e = ex.expand(name_expr, cn)
+
+    def has(conds, alt):
+        for a, ap in conds:
+            while isinstance(a, ast.UnaryOp) and isinstance(a.op, ast.Not):
+                a, ap = a.operand, not ap
+            if isinstance(a, ast.Compare) and len(a.ops) == 1 and match(f"{t}.__dict__", a.comparators[0]) and same(a.left, alt):
+                if (isinstance(a.ops[0], ast.In) and ap) or (isinstance(a.ops[0], ast.NotIn) and not ap):
+                    return True
+            m = match(f"hasattr({t}, $n)", a)
+            if m and ap and same(m['n'], alt):
+                return True
+        return False
+
+    def none_excluded():
+        for a, ap in path:
+            c = cmp_oriented(a, ap, lambda x: same(x, name_expr))
+            if c and c[1] in ('isnot', '!=') and isinstance(c[2], ast.Constant) and c[2].value is None:
+                return True
+        return False
+
+    alts = 0
+    for (cs, leaf), _ in _ifexp_cases(e):
+        conds = list(path_x)
+        for tt, p in cs:
+            conds += facts.split_conj(tt, p)
+        if isinstance(leaf, ast.Constant) and leaf.value is None:
+            if not none_excluded():
+                return None
+            continue
+        if not has(conds, leaf):
+            return None
+        alts += 1
+    if not alts:
+        return None
+    return f"`{src(name_expr)}` = {src(e)[:90]}"
